@@ -68,6 +68,7 @@ func c06(maxN int, fdBound uintptr, part int) {
 		r.SyncFunc = func(pid int) error { return nil }
 	}
 	before := *r
+	origFiles := append([]uintptr(nil), files...) // r.Files aliases files: compare against a copy
 	hostBefore := map[int]*kern.FileObj{}
 	for fd, e := range host.Fds {
 		if e != nil {
@@ -108,7 +109,7 @@ func c06(maxN int, fdBound uintptr, part int) {
 	sym.Assert(r.ExecFile == before.ExecFile && r.CgroupFd == before.CgroupFd && len(r.Files) == len(before.Files),
 		"Start must not modify the caller's Runner")
 	for i := range files {
-		sym.Assert(r.Files[i] == files[i], "Start must not modify the caller's descriptor list")
+		sym.Assert(r.Files[i] == origFiles[i], "Start must not modify the caller's descriptor list")
 	}
 	// the launching process keeps its own table (the sync socketpair is closed again)
 	for fd, e := range host.Fds {
